@@ -102,7 +102,18 @@ func csRows(id int16, n int, compress bool) *frame.Frame {
 }
 
 func encodeWith(c frame.RawCodec, f *frame.Frame, w io.Writer) error {
-	return c.EncodeFrame(f.DeepCopy(), w)
+	return c.EncodeFrame(f, w)
+}
+
+// once: the frame is built on first use and deep-copied for every call.
+func once(mk func() *frame.Frame) func() *frame.Frame {
+	var f *frame.Frame
+	return func() *frame.Frame {
+		if f == nil {
+			f = mk()
+		}
+		return f.DeepCopy()
+	}
 }
 
 func csEnc(pick func(in *csInst) frame.RawCodec, mk func() *frame.Frame) func(in *csInst) ([]byte, error) {
@@ -136,25 +147,25 @@ func csCatalogue() []csOp {
 	segLz4 := func(in *csInst) segment.Codec { return in.segLz4 }
 	segPlain := func(in *csInst) segment.Codec { return in.segPlain }
 	v4 := primitive.ProtocolVersion4
-	small := func() *frame.Frame { return csQuery(v4, 5, "SELECT a FROM t WHERE k = 1", false) }
-	other := func() *frame.Frame {
+	small := once(func() *frame.Frame { return csQuery(v4, 5, "SELECT a FROM t WHERE k = 1", false) })
+	other := once(func() *frame.Frame {
 		return csQuery(primitive.ProtocolVersion3, 6, "INSERT INTO u (x, y) VALUES (?, ?) -- another statement, longer", false)
-	}
-	empty := func() *frame.Frame { return frame.NewFrame(v4, 1, &message.Options{}) }
-	csmall := func() *frame.Frame {
+	})
+	empty := once(func() *frame.Frame { return frame.NewFrame(v4, 1, &message.Options{}) })
+	csmall := once(func() *frame.Frame {
 		return csQuery(v4, 7, "SELECT a, b, c, a, b, c, a, b, c FROM t WHERE k = 1 AND a = a AND b = b", true)
-	}
-	cbig := func() *frame.Frame { return csRows(8, 60, true) }
-	cempty := func() *frame.Frame {
+	})
+	cbig := once(func() *frame.Frame { return csRows(8, 60, true) })
+	cempty := once(func() *frame.Frame {
 		f := frame.NewFrame(v4, 2, &message.Ready{})
 		f.Header.Flags = f.Header.Flags.Add(primitive.HeaderFlagCompressed)
 		return f
-	}
-	refused := func() *frame.Frame {
+	})
+	refused := once(func() *frame.Frame {
 		f := csQuery(primitive.ProtocolVersion3, 9, "SELECT refused", false)
 		f.SetCustomPayload(map[string][]byte{"k": {1, 2, 3}})
 		return f
-	}
+	})
 	rnd := []byte{0x9b, 0x11, 0xe7, 0x42, 0x05}
 	zeros := make([]byte, 300)
 	text := bytes.Repeat([]byte("the quick brown fox "), 40)
@@ -173,16 +184,20 @@ func csCatalogue() []csOp {
 	}
 	// decoding: the input is a stream of two frames; the result is the re-encoding of both and the number of bytes left
 	decStream := func(pick func(in *csInst) frame.RawCodec, mk1, mk2 func() *frame.Frame, cut int) func(in *csInst) ([]byte, error) {
+		var input []byte
 		return func(in *csInst) ([]byte, error) {
-			ref := newCsInst()
-			src := &bytes.Buffer{}
-			if err := encodeWith(pick(ref), mk1(), src); err != nil {
-				return nil, err
+			if input == nil { // the input stream is built once
+				ref := newCsInst()
+				src := &bytes.Buffer{}
+				if err := encodeWith(pick(ref), mk1(), src); err != nil {
+					return nil, err
+				}
+				if err := encodeWith(pick(ref), mk2(), src); err != nil {
+					return nil, err
+				}
+				input = src.Bytes()
 			}
-			if err := encodeWith(pick(ref), mk2(), src); err != nil {
-				return nil, err
-			}
-			data := src.Bytes()
+			data := input
 			if cut > 0 {
 				data = data[:len(data)-cut]
 			}
@@ -201,15 +216,19 @@ func csCatalogue() []csOp {
 	}
 	// a frame with the compression flag whose body is not a valid block
 	decCorrupt := func(pick func(in *csInst) frame.RawCodec, mk func() *frame.Frame) func(in *csInst) ([]byte, error) {
+		var input []byte
 		return func(in *csInst) ([]byte, error) {
-			src := &bytes.Buffer{}
-			if err := encodeWith(pick(newCsInst()), mk(), src); err != nil {
-				return nil, nil // (reference failure shows as "did not fail")
+			if input == nil {
+				src := &bytes.Buffer{}
+				if err := encodeWith(pick(newCsInst()), mk(), src); err != nil {
+					return nil, nil // (reference failure shows as "did not fail")
+				}
+				input = src.Bytes()
+				for i := 13; i < len(input); i += 3 {
+					input[i] ^= 0xa5
+				}
 			}
-			data := src.Bytes()
-			for i := 13; i < len(data); i += 3 {
-				data[i] ^= 0xa5
-			}
+			data := append([]byte(nil), input...)
 			_, err := pick(in).DecodeFrame(&slowReader{data})
 			return nil, err
 		}
@@ -242,7 +261,7 @@ func csCatalogue() []csOp {
 		{Name: "fail.dec.snappy.corrupt", Kind: "fail", Props: "C01,C08", run: decCorrupt(snappy, csmall)},
 		{Name: "fail.dec.lz4.corrupt", Kind: "fail", Props: "C01,C08", run: decCorrupt(lz4, cbig)},
 		{Name: "fail.snappy.decompress", Kind: "fail", Props: "C08", run: func(in *csInst) ([]byte, error) {
-			return nil, in.snappyc.DecompressWithLength(bytes.NewReader([]byte{0xff, 0xff, 0xff, 0x7f, 1, 2, 3, 4, 5, 6, 7, 8, 9}), &bytes.Buffer{})
+			return nil, in.snappyc.DecompressWithLength(bytes.NewReader([]byte{0x20, 0xfe, 0xff, 0xff, 0xff, 0x07, 0xff, 0xee, 0xdd, 9}), &bytes.Buffer{})
 		}},
 		{Name: "fail.lz4.decompress", Kind: "fail", Props: "C08", run: func(in *csInst) ([]byte, error) {
 			return nil, in.lz4c.DecompressWithLength(bytes.NewReader([]byte{0, 0, 1, 0, 0xf0, 0xff, 0xff, 0xff, 0xff, 1, 2}), &bytes.Buffer{})
